@@ -3042,16 +3042,18 @@ class LocalGitClient(GitClient):
                 for refname, new_sha1 in new_refs.items():
                     old_sha1 = old_refs.get(refname, ZERO_SHA)
                     if new_sha1 != ZERO_SHA:
-                        current = target.refs.get_peeled(refname)
+                        # set_if_equals follows symrefs
+                        current = target.refs.follow(refname)[1]
                         if new_sha1 not in target.object_store:
                             ref_status[refname] = f"missing object {new_sha1!r}"
-                        elif current is not None and current != old_sha1:
+                        elif (current or ZERO_SHA) != old_sha1:
                             ref_status[refname] = (
                                 f"unable to set {refname!r} to {new_sha1!r}"
                             )
                     else:
-                        current = target.refs.get_peeled(refname)
-                        if current is not None and current != old_sha1:
+                        # remove_if_equals does not
+                        current = target.refs.read_ref(refname)
+                        if (current or ZERO_SHA) != old_sha1:
                             ref_status[refname] = "unable to remove"
                 if ref_status:
                     # Atomic push: if any ref would fail, fail them all
